@@ -18,6 +18,13 @@ RECIPES = {
     "Plugins_Trace": ("Plugins_Trace.cfg", {}),
     "Pruning_Trace": (None, {}),
     "FragmentsPkg_Trace": (None, {}),
+    "Determinism_Trace": ("Determinism_Trace.cfg", {}),
+    "GenConfig_Trace": ("GenConfig_Trace.cfg", {"OUT_FILE": "", "MAXON": "2"}),
+    "InputModel_Trace": ("InputModel_Trace.cfg", {"DEV_FILE": "@fixture"}),
+    "Names_Trace": ("Names_Trace.cfg", {"LISTS_FILE": "@fixture"}),
+    "OpText_Trace": ("OpText_Trace.cfg", {}),
+    "SchemaCopy_Trace": ("SchemaCopy_Trace.cfg", {"OUT_FILE": "", "MAXON": "2"}),
+    "SchemaSource_Trace": ("SchemaSource_Trace.cfg", {"OUT_FILE": ""}),
 }
 
 
@@ -42,6 +49,16 @@ def corrupt_field(trace):
                 ev[k] = v[:-1]
                 return t
     return None
+
+
+def corrupt_digest(trace):
+    t = copy.deepcopy(trace)
+    t[-1]["digest"] = "0" * 64
+    return t
+
+
+# a history of runs with one run left out is still a legal history: only the digest binds Determinism_Trace
+ONLY = {"Determinism_Trace": ((corrupt_digest, "field"), (corrupt_field, "field"))}
 
 
 def drop_event(trace):
@@ -70,21 +87,22 @@ def main():
             groups = [traces]
             if module in ("Pruning_Trace", "FragmentsPkg_Trace"):
                 groups = [[t] for t in traces]
+            env = {k: (str(SPECS / "fixtures" / f"{module}.{k}.json") if v == "@fixture" else v) for k, v in RECIPES[module][1].items()} or None
             for g in groups:
                 cfg = cfg_for(module, g)
-                _, rej, inv = validate_traces(module, cfg, g, work.sub(module))
+                _, rej, inv = validate_traces(module, cfg, g, work.sub(module), env=env)
                 if rej or inv:
                     failures.append(f"{module}: a recorded good trace was rejected ({rej}, {inv})")
                     continue
                 bad = []
                 for t in g:
-                    for mut, name in ((corrupt_field, "field"), (drop_event, "drop")):
+                    for mut, name in ONLY.get(module, ((corrupt_field, "field"), (drop_event, "drop"))):
                         m = mut(t)
                         if m is not None:
                             bad.append((name, m))
                 for name, m in bad:
                     try:
-                        _, rej, inv = validate_traces(module, cfg, [m], work.sub(module))
+                        _, rej, inv = validate_traces(module, cfg, [m], work.sub(module), env=env)
                     except Machinery:
                         continue      # TLC could not even evaluate the corrupted trace: rejected
                     if not rej and not inv:
